@@ -135,6 +135,7 @@ fn main() {
     if let Some(c) = ctx.replay_case() {
         let case: Case = serde_json::from_value(c.clone()).unwrap_or_else(|e| mcx::machinery(&format!("bad case: {e}")));
         run_case(&ctx, &cli, &case);
+        cli.cleanup();
         ctx.finish("replay of one case", false);
     }
     let ctx = &ctx;
@@ -175,6 +176,7 @@ fn main() {
     ctx.assume("seed control verified at start-up in the CLI process itself: the execution order of `--partial <all>` (a HashSet iteration, visible through the hook) is a function of VERIF_HASH_SEED and differs between seeds");
     ctx.assume("thread scheduling of the log collector is decided exhaustively by C25; here it is only sampled by running one seed twice");
     ctx.assume("stderr is not compared: the hook lines legitimately show the seed-dependent execution order of the checks");
+    cli.cleanup();
     ctx.finish(
         "one case = (C21 input, selection) analysed by the real CLI under every owned hash seed of the range; oracle: exit status and stdout byte-identical across all runs; non-trivial = output contains at least one warning",
         false,
